@@ -126,7 +126,7 @@ fn small_config(rng: &mut Rng, rate: RateKind) -> (usize, usize, usize) {
     let size = if k.max(r) <= 16 && rng.chance(1, 12) {
         *rng.pick(&[4096usize, 65534, 65536])
     } else {
-        *rng.pick(&[2usize, 4, 30, 64, 66, 130])
+        *rng.pick(&[2usize, 4, 30, 62, 64, 66, 100, 130])
     };
     (k, r, size)
 }
